@@ -292,7 +292,8 @@ def run(ctx):
                 events_all += events
                 continue
             events_all += events
-            if consts['Disp'] > 0 and not consts['TruncMark'] and n % 2 == 0:
+            light = name.endswith('-allhist') and n % 7 != 0       # all-histories configuration: the events are what counts
+            if consts['Disp'] > 0 and not consts['TruncMark'] and n % 2 == 0 and not light:
                 # the same history on a THB space (truncate=True) with the DEFAULT marking: the mesh and the
                 # activation sets must not depend on the basis flag
                 hs_t, ev_t, err_t = hs_util.replay_history(consts, hist, containers=('set',), truncate=True)
@@ -301,7 +302,7 @@ def run(ctx):
                     if hs_util.project(hs_t) != hs_util.project(hs):
                         ctx.violation('mesh-depends-on-truncate-flag config=%s marks=%s' % (name, json.dumps(marks)),
                                       {'hb': hs_util.project(hs), 'thb': hs_util.project(hs_t)})
-            if len(hist) >= 2 and n % 3 != 2:
+            if len(hist) >= 2 and n % 3 != 2 and not light:
                 # the adaptive loop: read-only queries (solve / mark) between the refine() calls, alternately on the
                 # object itself and on copy()s of it.  Same state, same answers.
                 hs_p, ev_p, err_p = hs_util.replay_history(consts, hist, containers=('set',), truncflag=consts['TruncMark'],
@@ -319,7 +320,7 @@ def run(ctx):
                 ctx.violation('state-mismatch config=%s marks=%s' % (name, json.dumps(marks)), {'got': got, 'expected': {
                     k: st[k] for k in ('active', 'deact', 'actfun', 'deactfun')}})
                 continue
-            if same:
+            if same and not light:
                 check_queries(ctx, name, st, hs)
         for rp in res.recs('REPR'):
             check_repr(ctx, name, consts, rp)
